@@ -652,6 +652,11 @@ def gen_tables(ctx):
 # ---------------------------------------------------------------------------------------------
 # running one case file through the real program, with a time limit
 # ---------------------------------------------------------------------------------------------
+# a token (start of line, after white space, a quote or `=`) that begins an absolute path; group 1 = the path
+_ABS_TOKEN = re.compile(r'(?:^|[\s\'"=])(/)', re.M)
+MAX_DOTDOT = 3  # < nesting depth of case directories and sandboxes below the scratch root (5)
+
+
 class _Timeout(BaseException):
     pass
 
@@ -665,8 +670,11 @@ class Runner:
 
     def __init__(self, work, tag='run'):
         self.root = tempfile.mkdtemp(prefix='c18-%s-' % tag, dir=work)
-        self.sbx = os.path.join(self.root, 'sbx')
+        # sandboxes and case directories lie NEST levels below the scratch root, so that `..` in a generated path stays inside it
+        self.sbx = os.path.join(self.root, 's1', 's2', 's3', 's4', 's5', 'sbx')
+        self.cases = os.path.join(self.root, 'h1', 'h2', 'h3', 'h4', 'h5')
         self.io = os.path.join(self.root, 'io')  # captured stdout / stderr: out of the reach of the case
+        self.skipped_unsafe = 0
         os.makedirs(self.sbx)
         os.makedirs(self.io)
         self.odd = []  # cases after which their own directory was gone or changed unexpectedly
@@ -686,18 +694,38 @@ class Runner:
 
     def new_dir(self):
         self.n += 1
-        d = os.path.join(self.root, 'd%d' % self.n)
+        d = os.path.join(self.cases, 'd%d' % self.n)
         os.makedirs(d)
         return d
 
+    def is_unsafe(self, text, files=None):
+        """a generated case must not be able to write outside the scratch root: no absolute path outside it, and no more `..`
+        than the nesting of the case directory / sandbox allows"""
+        for t in [text] + [v for v in (files or {}).values() if isinstance(v, str)]:
+            for m in _ABS_TOKEN.finditer(t):
+                if not t[m.start(1):].startswith(self.root):
+                    return True
+            if t.count('..') > MAX_DOTDOT:
+                return True
+        return False
+
     def run_text(self, text, files=None, limit=10, keep=False):
         """-> (ProgramRun, timed_out, dir)"""
+        if self.is_unsafe(text, files):
+            # not run: reported as a syntactically rejected case would be (the caller counts them)
+            self.skipped_unsafe += 1
+            d = self.new_dir()
+            return impl.ProgramRun(65, 'SYNTAX_ERROR\n', 'In [harness]\nnot run: the generated case names a path outside the scratch directory\n', None), False, d
         d = self.new_dir()
+        text = text.replace('{DIR}', os.path.basename(d)).replace('{ABS}', d)
         for name, contents in (files or {}).items():
             p = os.path.join(d, name)
             os.makedirs(os.path.dirname(p), exist_ok=True)
+            if isinstance(contents, tuple):  # ('symlink', target relative to the link's directory)
+                os.symlink(contents[1], p)
+                continue
             with open(p, 'w', encoding='utf-8', newline='') as f:
-                f.write(contents)
+                f.write(contents.replace('{DIR}', os.path.basename(d)).replace('{ABS}', d))
             if name in EXECUTABLES:
                 os.chmod(p, 0o755)
         case = os.path.join(d, 'test.case')
@@ -721,6 +749,7 @@ class Runner:
             shutil.rmtree(os.path.join(self.sbx, fn), ignore_errors=True)
         if not os.path.exists(case):
             self.odd.append(text)
+        self.last_text = text
         if not keep:
             shutil.rmtree(d, ignore_errors=True)
         return pr, timed_out, d
@@ -1607,7 +1636,7 @@ class Gram:
         pool = [SYMBOLS[t] for t in ('string', 'list', 'path') if t in self.defined] + self.composed_names
         if self.p(0.3):
             pool = pool + BUILTIN_PATH_SYMBOLS
-        lits = ['1', '2', 'a', '/', '-', ' ', '+']
+        lits = ['1', '2', 'a', 'd/', '-', ' ', '+']  # never a leading '/': a composed value must not become an absolute path
         parts = []
         for _ in range(self.rng.randint(1, 3)):
             parts.append('@[%s]@' % self.ch(pool) if pool and self.p(0.8) else self.ch(lits))
@@ -2309,16 +2338,21 @@ def corpus_files():
     return out
 
 
-def run_one_fuzz(runner, text, res, label, offending=None):
-    """-> (coq term or None, info, finding id or None)"""
-    pr, to, d = runner.run_text(text, files=HOME_FILES, keep=True)
+def run_one_fuzz(runner, text, res, label, offending=None, files=None):
+    """-> (coq term or None, info, finding id or None); term None: the case was not run (it could write outside the scratch root)"""
+    all_files = dict(HOME_FILES)
+    all_files.update(files or {})
+    if runner.is_unsafe(text, files):
+        res.count('fuzz: generated cases NOT run (absolute path outside the scratch root, or more than %d `..`)' % MAX_DOTDOT)
+        return None, None, None, None
+    pr, to, d = runner.run_text(text, files=all_files, keep=True)
     # what the real document parser does with the text, in the directory of the case (file inclusion is relative to it)
-    doc, pex = _parse_doc(text, os.path.join(d, 'test.case'))
+    doc, pex = _parse_doc(runner.last_text, os.path.join(d, 'test.case'))
     shutil.rmtree(d, ignore_errors=True)
     if to:
         # a cut-off run is an alarm only if it is confirmed with a generous limit (a loaded machine must not cry)
         res.count('fuzz: runs cut off at 10 s and repeated with 90 s')
-        pr, to, _ = runner.run_text(text, files=HOME_FILES, limit=90)
+        pr, to, _ = runner.run_text(text, files=all_files, limit=90)
     code, ident, exc = classify_run(pr)
     info = {'kind': 'fuzz', 'mutation': label, 'case': text,
             'observed': {'exit': code, 'identifier': ident, 'exception': None if pr.exception is None else repr(pr.exception)[:300],
@@ -2484,6 +2518,53 @@ def systematic_cases(ctx):
     return out
 
 
+def inclusion_cases(ctx):
+    """(label, text of test.case, extra files): the file-inclusion directive - self inclusion, 2- and 3-cycles, the paths written
+    plainly, with `.`, `..`, `sub/..`, absolute and through a symbolic link; a missing file; a directory; an included file with a
+    syntax error / an unknown phase / an invalid regex; a legal chain of depth 50.  {DIR} = name of the case directory, {ABS} = its
+    absolute path (inside the scratch root)."""
+    out = []
+    phases = ['[setup]'] if ctx.quick else ['[conf]', '[setup]', '[before-assert]', '[assert]', '[cleanup]']
+    self_paths = ['test.case', './test.case', '../{DIR}/test.case', 'd/../test.case', 'd/sub/../../test.case', '{ABS}/test.case',
+                  'link.case', 'd/../link.case', "'test.case'", '././test.case']
+    for ph in phases:
+        for p in self_paths:
+            out.append(('inclusion: self, written %s, %s' % (p, ph), '%s\nincluding %s\n' % (ph, p), {'link.case': ('symlink', 'test.case')}))
+        # 2-cycles
+        for back in ('../test.case', '../inc/../test.case', '{ABS}/test.case', '../link.case'):
+            out.append(('inclusion: 2-cycle back via %s, %s' % (back, ph), '%s\nincluding inc/a.xly\n' % ph,
+                        {'inc/a.xly': 'including %s\n' % back, 'link.case': ('symlink', 'test.case')}))
+        out.append(('inclusion: 2-cycle between included files with .., %s' % ph, '%s\nincluding lib/b.xly\n' % ph,
+                    {'lib/b.xly': 'including ../lib/c.xly\n', 'lib/c.xly': 'including b.xly\n'}))
+        out.append(('inclusion: 2-cycle plain, %s' % ph, '%s\nincluding a.xly\n' % ph, {'a.xly': 'including test.case\n'}))
+        # 3-cycles
+        out.append(('inclusion: 3-cycle with .. and sub/.., %s' % ph, '%s\nincluding inc/a.xly\n' % ph,
+                    {'inc/a.xly': 'including ../b.xly\n', 'b.xly': 'including d/../test.case\n'}))
+        out.append(('inclusion: 3-cycle plain, %s' % ph, '%s\nincluding a.xly\n' % ph,
+                    {'a.xly': 'including b.xly\n', 'b.xly': 'including a.xly\n'}))
+        # no cycle: the same file twice through different spellings is legal or a documented error, never internal
+        out.append(('inclusion: same file twice, different spelling, %s' % ph, '%s\nincluding inc2.xly\nincluding d/../inc2.xly\n' % ph, {}))
+        # errors that are not cycles
+        out.append(('inclusion: missing file, %s' % ph, '%s\nincluding no/such/file.xly\n' % ph, {}))
+        out.append(('inclusion: a directory, %s' % ph, '%s\nincluding d\n' % ph, {}))
+        out.append(('inclusion: a directory written d/sub/.., %s' % ph, '%s\nincluding d/sub/..\n' % ph, {}))
+        out.append(('inclusion: dangling symbolic link, %s' % ph, '%s\nincluding dangling.xly\n' % ph, {'dangling.xly': ('symlink', 'nowhere.xly')}))
+        out.append(('inclusion: included file with a syntax error, %s' % ph, '%s\nincluding bad.xly\n' % ph,
+                    {'bad.xly': 'no-such-instruction x\n'}))
+        out.append(('inclusion: included file with an unknown phase, %s' % ph, '%s\nincluding bad.xly\n' % ph, {'bad.xly': '[nope]\nx\n'}))
+        out.append(('inclusion: included file with an unterminated quote, %s' % ph, '%s\nincluding bad.xly\n' % ph,
+                    {'bad.xly': "def string Q = 'unterminated\n"}))
+        out.append(('inclusion: included file switches phase, invalid regex there, %s' % ph, '%s\nincluding sw.xly\n' % ph,
+                    {'sw.xly': "[assert]\nstdout matches '('\n"}))
+        out.append(('inclusion: included file is empty / binary, %s' % ph, '%s\nincluding e.xly\nincluding bin.xly\n' % ph,
+                    {'e.xly': '', 'bin.xly': '\x00\x01\x02'}))
+        # legal: depth 50 without a cycle
+        chain = {'c%d.xly' % i: 'including %sc%d.xly\n' % ('d/../' if i % 7 == 3 else '', i + 1) for i in range(49)}
+        chain['c49.xly'] = 'def string DEEP = fifty\n' if ph != '[conf]' else '# end\n'
+        out.append(('inclusion: legal chain of depth 50, %s' % ph, '%s\nincluding c0.xly\n' % ph, chain))
+    return out
+
+
 def run_fuzz(ctx, res, runner):
     rng = ctx.rng
     n_base = 330 if ctx.quick else 3000
@@ -2493,8 +2574,10 @@ def run_fuzz(ctx, res, runner):
     mut = Mutator(rng)
     terms, meta, findings = [], [], []
 
-    def one(text, label):
-        term, info, finding, o = run_one_fuzz(runner, text, res, label)
+    def one(text, label, offending=None, files=None):
+        term, info, finding, o = run_one_fuzz(runner, text, res, label, offending, files)
+        if term is None:
+            return (None, None, None, False)
         terms.append(term)
         meta.append(info)
         findings.append(finding)
@@ -2503,6 +2586,8 @@ def run_fuzz(ctx, res, runner):
 
     for name, text, expect, ident in [c + (None,) for c in CORPUS_CASES] + corpus_files():
         o = one(text, 'corpus: ' + name)
+        if o[0] is None and o[1] is None and o[2] is None and not o[3] and (not findings or meta[-1]['mutation'] != 'corpus: ' + name):
+            continue
         if ident is not None and o[1] != ident:
             # a stored regression input no longer ends the way it did when it was stored: worth a look, but only P_C18 decides
             res.count('corpus input with another outcome than stored: %s (%s, stored %s)' % (name, o[1], ident))
@@ -2511,13 +2596,13 @@ def run_fuzz(ctx, res, runner):
             res.count('corpus finding not reproduced: ' + expect)
         res.count('fuzz: corpus')
     for label, text, offending in systematic_cases(ctx):
-        term, info, finding, o = run_one_fuzz(runner, text, res, label, offending)
-        terms.append(term)
-        meta.append(info)
-        findings.append(finding)
-        res.count('fuzz outcome: %s' % (o[1] or ('exception ' + o[2].__name__ if o[2] else 'timeout' if o[3] else 'no identifier')))
+        one(text, label, offending)
         res.count('fuzz: ' + label.split(',')[0].split(' [')[0])
         res.nontrivial.add(('f', text))
+    for label, text, files in inclusion_cases(ctx):
+        one(text, label, None, files)
+        res.count('fuzz: inclusion family')
+        res.nontrivial.add(('f', label + text))
     for b in range(n_base):
         focus = rng.weighted([('general', 5), ('act-line', 3), ('symbol-chain', 3)])
         g = Gram(rng)
